@@ -60,9 +60,34 @@ func fmtHevcTypes(l []hevc.NaluType) string {
 }
 
 // ---------------------------------------------------------------- one observable call
-// call runs library function fn on a private exact-capacity copy of in.
+// call runs library function fn on a private exact-capacity copy of in, and a second time on a private copy that is
+// a sub-slice of a larger buffer (24 spare bytes behind it): the result must not depend on the spare capacity and
+// the bytes behind len(in) belong to the caller - a function that writes there (an "in place, the capacity allows
+// it" fast path) corrupts whatever the caller keeps behind the stream.
 func call(fn, args string, in []byte) (res string) {
-	d := hx.Exact(in)
+	res = callOn(fn, args, hx.Exact(in))
+	if fn == "hzb" {
+		return res
+	}
+	buf := make([]byte, len(in)+24)
+	copy(buf, in)
+	for i := len(in); i < len(buf); i++ {
+		buf[i] = 0xA5
+	}
+	res2 := callOn(fn, args, buf[:len(in)])
+	for i := len(in); i < len(buf); i++ {
+		if buf[i] != 0xA5 {
+			return res + "|WRITES-BEYOND-LEN(offset " + strconv.Itoa(i-len(in)) + " behind the input)"
+		}
+	}
+	if res2 != res && !(strings.HasPrefix(res, "panic") && !strings.HasPrefix(res2, "panic")) {
+		return res + "|DEPENDS-ON-CAPACITY(" + res2 + ")"
+	}
+	return res
+}
+
+// callOn runs fn on d itself.
+func callOn(fn, args string, d []byte) (res string) {
 	var a []int
 	if args != "-" {
 		for _, s := range strings.Split(args, ",") {
